@@ -72,6 +72,8 @@ def run_config(root, files, cfg):
     os.listdir, os.walk = listdir, walk
     try:
         argv = ["--disable_autoupdate", "--incremental_sync", "-n", str(cfg["nthreads"])]
+        if cfg.get("include_dirs"):
+            argv += ["--include_dirs"] + [os.path.join(root, d) for d in cfg["include_dirs"]]
         if cfg["mode"] == "init":
             srv = Server(root=root, argv=argv, fast_pool=False)
             errs = [o for o in srv.init_notes if o.get("method") == "window/showMessage" and o["params"].get("type") == 1]
@@ -103,11 +105,21 @@ def case_st(draw):
     bd = draw(st.sampled_from(["", "bundle"]))
     for n, t in BUNDLE.items():
         files[os.path.join(bd, n)] = t
+    # one header name in two include directories: which one is found must not depend on the run
+    inc = None
+    if draw(st.booleans()):
+        files["zinc1/zh_defs.h"] = "#define ZH_VAL 1\n"
+        files["zinc2/zh_defs.h"] = "#define ZH_VAL 2\n"
+        files[os.path.join(bd, "zh_user.F90")] = ("#include \"zh_defs.h\"\nmodule zh_user\n  implicit none\n  integer :: zh_arr(ZH_VAL)\n#if ZH_VAL == 1\n  integer :: zh_one\n"
+                                                  "#else\n  integer :: zh_two\n#endif\ncontains\n  subroutine zh_s()\n    zh_\n  end subroutine zh_s\nend module zh_user\n")
+        inc = ["zinc1", "zinc2", "lib"]
     cfgs = []
     for _ in range(draw(st.integers(3, 5))):
         mode = draw(st.sampled_from(["init", "init", "init", "open"]))
         cfg = {"nthreads": draw(st.sampled_from([1, 2, 3, 4, 8, 16])), "perm": draw(st.integers(0, 23)), "mode": mode,
                "hashseed": draw(st.sampled_from([0, 1, 2, 3, 7]))}
+        if inc:
+            cfg["include_dirs"] = inc
         if mode == "open":
             order = sorted(files)
             cfg["open_order"] = list(draw(st.permutations(order)))
@@ -149,6 +161,8 @@ class Runner:
             with open(p, "w") as fh:
                 fh.write(t)
         ref_cfg = {"nthreads": 1, "perm": 0, "mode": "init", "hashseed": 0}
+        if case["configs"] and case["configs"][0].get("include_dirs"):
+            ref_cfg["include_dirs"] = case["configs"][0]["include_dirs"]
         ref = self.battery_of(root, case["files"], ref_cfg)
         discs = []
         for cfg in case["configs"]:
